@@ -637,6 +637,8 @@ def distribution(cx):
     for k, v in cx.dist.items():
         if k.startswith("val:union:member="):
             pos["member %s" % k.split("=")[1].split("/")[0]] += v
+        elif k.startswith("val:union-validate:"):
+            pos["after validation " + k.split(":", 2)[2]] += v
         elif k == "val:union:no-member":
             pos["no member"] += v
         elif k.startswith("val:pstr:"):
@@ -712,7 +714,38 @@ def run_union_idref(run):
     valcomp.laws_value(run, accepted, pairs)
 
 
+VALID_UNIONS = ["U(lrefr(i8)|str:0..3)", "U(lrefr(i8)|lrefr(str:1..2)|bool)", "U(i16:0..5|lrefr(d1)|lrefr(i8))", "U(lrefr(%s)|lrefr(u8)|%s)" % (E1, E2),
+                "U(str:1..1|lrefr(i16))", "U(lrefr(i8))", "U(lrefr(i8)|lrefr(i8:1..5)|str:0..2)", "lrefr(i8)", "lrefr(str:1..3)"]
+VALID_POOL = [b"1", b"+1", b"01", b"7", b"-3", b"a", b"x y", b"true", b"10", b"3", b"9", b"127", b"128", b"1.5", b"7.0", b"xy", b"abcd", b"", b" 1"]
+
+
+def run_union_valid(run):
+    """the `validate` callback of union (lyd_validate_*): members with require-instance are resolved against the data tree, the members are tried
+    again in order and the value may end up with ANOTHER member than at store time"""
+    cx = run.cx
+    rng = cx.sub_rng("union-valid")
+    cases = []
+    for u in VALID_UNIONS:
+        for s in VALID_POOL:
+            tsets = [[], [s], [b"1", b"7"], [b"2", b"+1", b"a"], [b"xy", b"10", b"7.0"]]
+            tsets.append(rng.sample(VALID_POOL, 3))
+            for ts in (tsets if cx.tier == "thorough" or u in VALID_UNIONS[:4] else tsets[:3]):
+                cases.append("uvalid %s %s%s" % (u, hx(s), "".join(" " + hx(t) for t in ts)))
+    run.diff(cases)
+    for c in cases:
+        r = run.get(c)
+        cx.count(("uvalid", c), True, "val:union-validate:%s" % ("member=%s" % r[2] if r[0] == "ok" else r[1]))
+        # (L) the validated value keeps the canonical form the store gave it or the value is refused: validation never invents a value
+        t = c.split()
+        st = run.impl.get("validate %s %s" % (t[1], t[2]))
+        if r[0] == "ok" and st is not None and st[0] != "ok":
+            cx.fail("val", "a value the type refuses is accepted by validation", {"type": t[1], "value_hex": t[2], "got": r, "store": st, "law": "validate_implies_store"})
+    cx.rule("val: union / leafref validation (lyd_validate_module): %d types with require-instance leafref members x %d values x up to 6 sets of target instances; "
+            "reply = canonical value and the member that holds the value AFTER validation" % (len(VALID_UNIONS), len(VALID_POOL)))
+
+
 def run_all(run):
+    run_union_valid(run)
     run_union(run)
     run_pstr(run)
     run_idref(run)
